@@ -453,6 +453,7 @@ def judge(world, obs, placement, stats):
         if what in ('fixpoint', 'const'):
             viol.append({'clause': 'C10.ordinary', 'cell': i,
                          'absorb': absorbing_cycle(G, cycles, i),
+                         'range_on_cycle': absorbs_range_on_cycle(G, i),
                          'detail': 'cell %d reports %s but its own formula on '
                                    'the reported values gives %s' % (
                                        i, got, exp)})
@@ -514,6 +515,33 @@ def absorbing_cycle(G, cycles, i):
                 any(o['icpt'] or o['sw'] for o in G.edge[u][v])
                 for u, v in G.cycle_edges(c)):
             return True
+    return False
+
+
+def absorbs_range_on_cycle(G, i):
+    """F-C10-5: cell i consumes, in an error-absorbing position (COUNT,
+    ISERROR, IFERROR/IFNA value), a multi-cell rectangle whose RANGE NODE lies
+    on a cycle (a member of the rectangle depends on an owner of it): the
+    library marks the whole range node #CIRC!, so the absorbing consumer does
+    not see the ordinary cells of the rectangle."""
+    from ..cyc import occurrences
+    from ..expr import rect_cells
+    c = G.world['cells'][i]
+    if 'f' not in c:
+        return False
+    for ref, conds, icpt, sw, agg in occurrences(c['f']):
+        if not (icpt or sw):
+            continue
+        r = ref if ref[0] == 'r' else G.world['names'][ref[1]]['t']
+        cells = rect_cells(r)
+        if len(cells) < 2:
+            continue
+        members = [G.idx.occupant(q) for q in cells]
+        members = [m for m in members if m is not None]
+        owners = [o for o, ms, rect in G.ranges if rect == tuple(r[1:])]
+        for m in members:
+            if set(owners) & G.reach(m):
+                return True
     return False
 
 
@@ -643,6 +671,8 @@ def signature(trace, v):
         return 'C10.strict/cycle-through-iferror-value'
     if v['clause'] == 'C10.ordinary' and v.get('absorb'):
         return 'C10.strict/cycle-through-iferror-value'
+    if v['clause'] == 'C10.ordinary' and v.get('range_on_cycle'):
+        return 'C10.ordinary/absorbing-consumer-of-range-on-cycle'
     return None
 
 
